@@ -526,8 +526,9 @@ impl GroupAggregator {
 
                 *count += 1;
 
-                let calculate = |sum: f64, sum_square: f64, n: f64| {
-                    let variance = (sum_square - (sum * sum) / n) / n;
+                let result = |variance: f64| {
+                    // Rounding may leave a tiny negative difference where the variance is zero
+                    let variance = if variance < 0.0 { 0.0 } else { variance };
                     if *is_variance {
                         variance
                     } else {
@@ -537,10 +538,14 @@ impl GroupAggregator {
 
                 let value = match (sum, sum_square) {
                     (Value::Int(sum), Value::Int(sum_square)) => {
-                        Some(Value::Float(Float(calculate(*sum as f64, *sum_square as f64, *count as f64))))
+                        // Exact in 128 bits: (n * sum of squares - square of the sum) / n^2 (the f64 difference of the two sums cancels)
+                        let n = *count as i128;
+                        let numerator = n * (*sum_square as i128) - (*sum as i128) * (*sum as i128);
+                        Some(Value::Float(Float(result(numerator as f64 / (n * n) as f64))))
                     }
                     (Value::Float(sum), Value::Float(sum_square)) => {
-                        Some(Value::Float(Float(calculate(sum.0, sum_square.0, *count as f64))))
+                        let n = *count as f64;
+                        Some(Value::Float(Float(result((sum_square.0 - (sum.0 * sum.0) / n) / n))))
                     }
                     _ => None
                 };
